@@ -296,8 +296,10 @@ def run_case(case):
                             continue
                         fastparquet.write(path, new, file_scheme="hive", partition_on=pcols, append="overwrite",
                                           **({"row_group_offsets": op["rgo"]} if op["rgo"] else {}))
-                        newkeys = set(map(tuple, new[pcols].astype(str).values.tolist()))
-                        gone = {r for r in model if tuple(str(src.loc[r, c]) for c in pcols) in newkeys}
+                        # (one rendering for both sides: a column of midnights prints as dates through astype(str), a single Timestamp never does)
+                        _k = lambda v_: str(pd.Timestamp(v_)) if isinstance(v_, (pd.Timestamp, np.datetime64)) else str(v_)
+                        newkeys = set(tuple(_k(v_) for v_ in row_) for row_ in new[pcols].itertuples(index=False, name=None))
+                        gone = {r for r in model if tuple(_k(src.loc[r, c]) for c in pcols) in newkeys}
                         model = (model - gone) | set(new["rid"].tolist())
                         src = pd.concat([src, new.set_index("rid", drop=False)])
                         ctx["overwritten_partitions"] = sorted("/".join(t) for t in newkeys)
